@@ -203,9 +203,9 @@ theorem size_memRead (m : MapSt) (b : E) (d : Int) (l : Nat) (be : Bool) (wf : Z
   obtain ⟨h1, h2⟩ := readParts_shape m.tbl b d be
     (flattenItems ((zoneOf m.zones (zref b d).1).read (zref b d).2 l)) 0
   split
-  · rw [size_catList_bytes _ (by intro e he; exact h2 e (List.mem_reverse.mp he))]
+  · rw [size_catListJ, size_catList_bytes _ (by intro e he; exact h2 e (List.mem_reverse.mp he))]
     simp [h1, hlen]
-  · rw [size_catList_bytes _ h2]
+  · rw [size_catListJ, size_catList_bytes _ h2]
     simp [h1, hlen]
 
 /-- **`_Mem_read` is a byte-store read**: if every byte of the window — the stored byte where the zone has
@@ -250,7 +250,7 @@ theorem ideal_memRead (m : MapSt) (b : E) (d : Int) (l : Nat) (be : Bool) (wf : 
   rw [readN_eq]
   split
   · rename_i hbe
-    rw [ideal_catList_bytes _ _ _ (by intro e he; exact h2 e (List.mem_reverse.mp he)), List.map_reverse]
+    rw [(catListJ_spec sem σ _).1, ideal_catList_bytes _ _ _ (by intro e he; exact h2 e (List.mem_reverse.mp he)), List.map_reverse]
     apply leVal_congr _ _ (by simp [memList_length, h1, hlen])
     intro i hi1
     have hi : i < l := by simpa [h1, hlen] using hi1
@@ -263,7 +263,7 @@ theorem ideal_memRead (m : MapSt) (b : E) (d : Int) (l : Nat) (be : Bool) (wf : 
     simp only [List.getElem_map] at e
     simp only [h1, hlen]
     rw [e, h (l - 1 - i) hk, Nat.mod_mod]
-  · rw [ideal_catList_bytes _ _ _ h2]
+  · rw [(catListJ_spec sem σ _).1, ideal_catList_bytes _ _ _ h2]
     apply leVal_congr _ _ (by simp [memList_length, h1, hlen])
     intro i hi1
     have hi : i < l := by simpa [h1, hlen] using hi1
